@@ -90,6 +90,10 @@ def render(rng, toks, fancy):
             v = t[1]
             txt = str(v).encode()
             if fancy and rng.random() < 0.05 and v >= 0: txt = rng.choice([b"+", b"00", b"0"]) + txt
+            elif fancy and rng.random() < 0.04:
+                # leading zeros up to and beyond the digit counts of 2^63 and 2^64: the value, not the number of digits, decides
+                W = rng.choice([18, 19, 20, 21, 40]); mag = str(abs(v)).encode()
+                txt = (b"-" if v < 0 else b"") + b"0" * max(0, W - len(mag)) + mag
             out += txt
             first = False
         elif t[0] == "s":
